@@ -1695,5 +1695,41 @@ example := C18_stop_trace (exStopper .absolute 0.01) 1 (Nat.le_refl 1) rfl (by s
 example := C18_multiReq_derived (α := ℝ) [] [.stopper (exStopper .absolute 0.01), .stopper (exStopper2 .absolute 0.01), .request [2]]
   (exEval f15) (fun e => e) ⟨1, 4, 2, [0, 1, 2, 3], false, false⟩ (by decide)
 
+/-- the hypotheses of `C18_stop_trace_multi` are met by the callback list `[evaluator, stopper (patience 1), stopper (patience 2),
+requester at epoch 7]` (identities = positions 0..3) on the F7 witness values, 2 batches per epoch, epochs 1..4 -/
+example := C18_stop_trace_multi (fun _ => f15) (fun _ => f15) []
+  [(.stopper (exStopper .absolute 0.01), none), (.stopper (exStopper2 .absolute 0.01), none), (.request [7], none)]
+  (fun e => e) ⟨1, 4, 2, [0, 1, 2, 3], false, false⟩ (by decide) (exEval f15) []
+  ⟨"m", .absolute, by simp, by simp [MetricEvaluator.names, Dict.keys], by simp, by simp, by simp, rfl⟩
+  (by
+    have hm : Monitors "m" f15 f15 .absolute (exEval f15) [] :=
+      ⟨by simp, by simp [MetricEvaluator.names, Dict.keys], by simp, by simp, by simp, rfl⟩
+    intro p hp
+    simp only [List.nil_append, List.mem_cons, List.not_mem_nil, or_false] at hp
+    rcases hp with rfl | rfl | rfl
+    · exact ⟨by simp [exStopper], by simp [exStopper], hm⟩
+    · exact ⟨by simp [exStopper2], by simp [exStopper2], hm⟩
+    · trivial)
+
+/-- the hypotheses of `C18_session_traces` are met by a session of four calls on the F7 witness objects: epochs 1..4 (stops at
+3), a call WITHOUT reset (entered stopped: empty trace), a resumed call over epochs 5..6 with 3 batches, and a call over an
+empty range after `clear_history()` — from a clear flag; and the same session entered with the flag already SET -/
+example (st : StopState) := C18_session_traces (exStopper .absolute 0.01) 1 (Nat.le_refl 1) rfl (by simp [exStopper]) true 1
+  (Mof := f15) (Vof := f15)
+  [⟨false, false, exCfg18, fun e => e⟩, ⟨false, false, exCfg18, fun e => e⟩, ⟨false, true, ⟨5, 6, 3, [0, 1], false, false⟩, fun e => e⟩,
+    ⟨true, true, ⟨3, 2, 2, [0, 1], false, false⟩, fun e => e⟩]
+  (by simp [exCfg18]) (exEval f15) st []
+  ⟨by simp, by simp [MetricEvaluator.names, Dict.keys], by simp, by simp [exStopper], by simp [exStopper], rfl⟩
+
+/-- `SessionTraces` is not vacuous: for a one-call session entered with the flag set it pins the result (nothing fired, the
+entry state) — and it is FALSE for a result list of the wrong length -/
+example (r : FitState Int ℝ) (h : SessionTraces (exStopper .absolute 0.01) 1 true 1 f15 f15
+    [⟨false, false, exCfg18, fun e => e⟩] [r] (exEval f15) ⟨true, some 9⟩ []) :
+    r = ⟨exEval f15, ⟨true, some 9⟩, []⟩ ∧
+    ¬ SessionTraces (exStopper .absolute 0.01) 1 true 1 f15 f15 [⟨false, false, exCfg18, fun e => e⟩] [] (exEval f15) ⟨true, some 9⟩ [] := by
+  refine ⟨?_, fun h' => h'⟩
+  have := (h.1.1 (by simp)).1
+  simpa using this
+
 end C18
 end QV.Props
